@@ -2,7 +2,7 @@
 From Coq Require Import List Arith Lia Bool PeanoNat String.
 Import ListNotations.
 Notation length := List.length.
-From SP Require Import Skel Gen Expected NetA Inv Pres Dead Top Ghost GhostPres NetTop.
+From SP Require Import Skel Gen Expected ExpectedCones NetA Inv Pres Dead Top Ghost GhostPres NetTop.
 From SP Require Port.
 
 (* T1: tasks are appended at the tail of startedTasks, only the head's Done is awaited, the head is popped, its out-IPs are sent *)
@@ -54,8 +54,19 @@ Theorem C08_fanin_order : forall (c : Port.cfg), 1 <= Port.cap c -> 1 <= Port.ns
   forall r, r < Port.ns c -> Port.from r (Port.hist s) = firstn (Port.rcv s r) (Port.plan c r).
 Proof. intros c C N l s H. exact (proj1 (Port.merge_is_orderly c C N l s H)). Qed.
 
+(* T1, call cones: every function of scipipe that the functions above can reach (calls and function values, interface calls
+   resolved to every implementation) is one the models were compared with -- a helper that is new to the cone, or a new call
+   of an old one, changes a list (the lists are regenerated from /repo on every run; ExpectedCones.v holds the accepted ones) *)
+Theorem C08_cone_conforms :
+  strs_eqb cone_Process_Run exp_cone_Process_Run
+  && strs_eqb cone_taskQueue_NextTaskDone exp_cone_taskQueue_NextTaskDone
+  && strs_eqb cone_OutPort_Send exp_cone_OutPort_Send
+  && strs_eqb cone_InPort_Send exp_cone_InPort_Send = true.
+Proof. vm_compute. reflexivity. Qed.
+
 Print Assumptions C08_code_conforms.
 Print Assumptions C08_fanin_order.
 Print Assumptions C08_process_order.
 Print Assumptions C08_creation_is_arrival_order.
 Print Assumptions C08_final_order.
+Print Assumptions C08_cone_conforms.
